@@ -446,6 +446,15 @@ def chain_case(r):
     else:
         c.ops = [[api, target if tamper != 'remove' else dirs[D] + '/f']]
     c.meta['api'] = api
+    # the same loader has answered harmless questions about the untouched top level before (what `gemato verify` does first:
+    # find_timestamp; lookups of top-level files): nothing they load may become trusted without its check
+    pre = []
+    if r.random() < 0.5:
+        for _ in range(r.randint(1, 3)):
+            pre.append(r.choice([['find_timestamp'], ['find_timestamp'], ['find_path_entry', 'g0'], ['find_dist_entry', 'absent.tar', ''],
+                                 ['verify_path', 'g0'], ['loaded']]))
+    c.ops = pre + c.ops
+    c.meta['warm_up'] = len(pre)
     # the link that must be found broken: the Manifest of level k as recorded at level k-1
     c.meta['broken'] = (dirs[k] + '/' if dirs[k] else '') + mnames[k]
     # unless the tampering left the level-k Manifest bytes unchanged (cannot happen: its content lists the file)
@@ -462,7 +471,9 @@ def c02(ctx):
     for c, i, m in res:
         if not c.meta['changed'] or i[0] != 'ok' or not i[1]:
             continue
-        x = i[1][0]
+        if len(i[1]) <= c.meta['warm_up']:
+            continue
+        x = i[1][c.meta['warm_up']]
         ok = (x[0] == 'err' and x[1][0] == 'ManifestMismatch' and x[1][1] == c.meta['broken']) or \
              (x[0] == 'err' and x[1][0] == 'UnsupportedHash' and c.meta['unsupported']) or \
              (c.meta['api'] == 'verify' and x[0] == 'ok' and x[1][0] == 0 and any(call[0] == c.meta['broken'] for call in x[1][1]))
